@@ -289,6 +289,7 @@ fn verif_harness_ext(toks: &[&str]) -> String {
                 max_invalid: g("inv", "5").parse().unwrap(),
                 preamble_err: g("pre", "2").parse().unwrap(),
                 squelch: kv(rest, "sqopen").map(|o| (o.parse().unwrap(), g("sqclose", "0").parse().unwrap())),
+                agc: kv(rest, "gmin").map(|o| (o.parse().unwrap(), g("gmax", "1000000").parse().unwrap())),
             };
             let p = Params {
                 rate: cfg.rate,
@@ -567,6 +568,7 @@ fn verif_harness_ext(toks: &[&str]) -> String {
                 max_invalid: g("inv", "5").parse().unwrap(),
                 preamble_err: g("pre", "2").parse().unwrap(),
                 squelch: kv(rest, "sqopen").map(|o| (o.parse().unwrap(), g("sqclose", "0").parse().unwrap())),
+                agc: kv(rest, "gmin").map(|o| (o.parse().unwrap(), g("gmax", "1000000").parse().unwrap())),
             };
             let p = Params {
                 rate: cfg.rate,
@@ -597,6 +599,7 @@ fn verif_harness_ext(toks: &[&str]) -> String {
                 max_invalid: g("inv", "5").parse().unwrap(),
                 preamble_err: g("pre", "2").parse().unwrap(),
                 squelch: kv(rest, "sqopen").map(|o| (o.parse().unwrap(), g("sqclose", "0").parse().unwrap())),
+                agc: kv(rest, "gmin").map(|o| (o.parse().unwrap(), g("gmax", "1000000").parse().unwrap())),
             };
             let p = Params {
                 rate: cfg.rate,
